@@ -526,12 +526,12 @@ theorem runObs_inv {α} (w s : Nat) (hs : 0 < s) (hw : 0 < w) :
         ((rollRingLS w s).runObs (st, ob) xs).1 ((rollRingLS w s).runObs (st, ob) xs).2 c' := by
   intro xs
   induction xs with
-  | nil => intro pre st ob c h; exact ⟨c, by simpa [LSplit.runObs] using h⟩
+  | nil => intro pre st ob c h; exact ⟨c, by simpa [LSplit.runObs, runObsRaw] using h⟩
   | cons x xs ih =>
     intro pre st ob c h
     have h1 := inv_step w s (density w s) hs hw (density_pos w s hs hw) (density_mul w s hs) pre st ob c x h
     obtain ⟨c', h2⟩ := ih (pre ++ [x]) _ _ _ h1
     refine ⟨c', ?_⟩
-    simpa [LSplit.runObs, rollRingLS, List.append_assoc] using h2
+    simpa [LSplit.runObs, runObsRaw, rollRingLS, List.append_assoc] using h2
 
 end Rx
